@@ -34,6 +34,8 @@ CHECKS = {
          "seeded search over call sequences of length 2-12 per generation (three generations per run) over next / response / error with current, stale and unknown ids / init error / restore calls / unknown routes / wrong methods, interleaved with caller arrivals, in plain and snapshot mode; every verdict is compared with the reference automaton written from the public Runtime API documentation, a refused call must leave the state unchanged; sampled sequences"),
  "C13": ("exploration", "3 C13 and appendix A.2", "full-stack deterministic simulation: scripted external and internal extensions over the Extensions API alphabet; reference-automaton and refusal-table oracle",
          "seeded search over interleaved call sequences of 1-3 external and 0-11 internal extensions (register with arbitrary names, event lists and feature headers, next, init/error, exit/error with proper, missing, invalid and unknown identifiers, calls on a second connection while parked); every verdict is compared with the reference automaton and the documented refusal types; registration data is compared with the init parameters; sampled sequences"),
+ "C15": ("exploration", "3 C15", "full-stack deterministic simulation with a recording EventsAPI over the scenario families of C01/C03-C07/C09; grammar and truthfulness oracle on the event trace",
+         "the generators of seven scenario families (init orders, invocation sequences, timeouts with holds, crash-point matrix, shutdown matrix, swarm, histories) are re-run under this check and the recorded platform events are judged: block structure and phase tags, one extension line per known extension with true state class and subscriptions, invoke-start/runtime-done multiplicity, success only where the driver's ground truth says the step succeeded, error type = first delivered fault; sampled"),
 }
 
 NA = [
